@@ -65,6 +65,13 @@ DESIGNATED = {
     ('fil_actor_eam', 'constructor'): lambda rt: is_id(rt, SYSTEM),
     ('fil_actor_multisig', 'constructor'): lambda rt: is_id(rt, INIT),
     ('fil_actor_paych', 'constructor'): lambda rt: is_type(rt, 'Init'),
+    ('fil_actor_evm', 'constructor'): lambda rt: is_id(rt, INIT),
+    ('fil_actor_evm', 'resurrect'): lambda rt: is_id(rt, EAM),
+    ('fil_actor_evm', 'invoke_contract_delegate'): lambda rt: addr_eq(rt.caller, rt.receiver),
+    ('fil_actor_evm', 'storage_at'): lambda rt: is_id(rt, SYSTEM),
+    ('fil_actor_eam', 'create'): lambda rt: is_type(rt, 'EVM'),
+    ('fil_actor_eam', 'create2'): lambda rt: is_type(rt, 'EVM'),
+    ('fil_actor_ethaccount', 'constructor'): lambda rt: is_id(rt, SYSTEM),
     ('fil_actor_multisig', 'add_signer'): lambda rt: addr_eq(rt.caller, rt.receiver),
     ('fil_actor_multisig', 'remove_signer'): lambda rt: addr_eq(rt.caller, rt.receiver),
     ('fil_actor_multisig', 'swap_signer'): lambda rt: addr_eq(rt.caller, rt.receiver),
